@@ -1,5 +1,6 @@
 import Ubx.Proofs.CodeHelpers
 import Ubx.Model.Message
+import Ubx.Model.PyConfigHosts
 /-!
 # `UBXMessage.config_set` / `config_del` / `config_poll`, as written in the working tree, are the model's `configSet` / `configDel` / `configPoll`
 
@@ -18,83 +19,12 @@ set_option linter.unusedSimpArgs false
 namespace Ubx.Py
 open Ubx Ubx.Gen.Code
 
-/-- objects of the configuration helpers: a storage type, a finished message -/
-inductive CO where
-  | ty (t : Ty)
-  | msg (m : Msg)
-
-def toPyC : V CO → PyVal
-  | .int i => .int i
-  | .bool b => .bool b
-  | .bytes b => .bytes b
-  | .none => .none
-  | .py v => v
-  | _ => .other
-
 theorem toPyC_int (i : Int) : toPyC (.int i) = .int i := rfl
 theorem toPyC_bytes (b : Bytes) : toPyC (.bytes b) = .bytes b := rfl
 theorem toPyC_ofPy (v : PyVal) : toPyC (V.ofPy v) = v := by cases v <;> rfl
 
-def cfgGlob : Name → Option (V CO)
-  | 0x5531 => some (.str 0x55303031)
-  | 0x5532 => some (.str 0x55303032)
-  | 0x5534 => some (.str 0x55303034)
-  | 0x534554 => some (.int 1)
-  | 0x504f4c4c => some (.int 2)
-  | _ => none
-
-def tyOfToken : V CO → Option Ty
-  | .str 0x55303031 => some (.t cU 1)
-  | .str 0x55303032 => some (.t cU 2)
-  | .str 0x55303034 => some (.t cU 4)
-  | .host (.ty t) => some t
-  | _ => none
-
-def cfgCall (ctx : Ctx) (f : Name) (args : List (V CO)) (kw : List (Name × V CO)) (h : Unit) : X CO (V CO) × Unit :=
-  if f = 0x76616c326279746573 then                 -- val2bytes(v, type)
-    match args with
-    | [v, t] =>
-      (match tyOfToken t with
-       | some ty => (encR .bytes (val2bytes ctx.atttype (toPyC v) ty), h)
-       | none => (raiseX xUnsupported, h))
-    | _ => (raiseX xUnsupported, h)
-  else if f = 0x6366676e616d65326b6579 then         -- cfgname2key(name)
-    match args with
-    | [.str n] => (encR (fun (kt : Nat × Ty) => .tuple [.int kt.1, .host (.ty kt.2)]) (cfgname2key ctx n), h)
-    | _ => (raiseX xUnsupported, h)
-  else if f = 0x6366676b6579326e616d65 then         -- cfgkey2name(id)
-    match args with
-    | [.int k] =>
-      if 0 ≤ k then (encR (fun (nt : Name × Ty) => .tuple [.str nt.1, .host (.ty nt.2)]) (cfgkey2name ctx k.toNat), h)
-      else (raiseX xUnsupported, h)
-    | _ => (raiseX xUnsupported, h)
-  else if f = 0x5542584d657373616765 then           -- UBXMessage("CFG", name, mode, payload=…)
-    match args, kw with
-    | [.str 0x434647, .str n, .int m], [(0x7061796c6f6164, .bytes p)] =>
-      if 0 ≤ m then (encR (fun m => .host (.msg m)) (constructNamed ctx N.cCFG n m.toNat p), h) else (raiseX xUnsupported, h)
-    | _, _ => (raiseX xUnsupported, h)
-  else (raiseX xUnsupported, h)
-
-def cfgHost (ctx : Ctx) : Host CO Unit where
-  glob := cfgGlob
-  call := cfgCall ctx
-  mcall := fun _ _ _ _ h => (raiseX xUnsupported, h)
-  attr := fun _ _ _ => raiseX xUnsupported
-  setattr := fun _ _ _ h => (raiseX xUnsupported, h)
-  index := fun _ _ _ => raiseX xUnsupported
-  contains := fun _ _ _ => raiseX xUnsupported
-  truthy := fun _ => true
-  eqHost := fun _ _ => false
-
 theorem ch_glob (ctx : Ctx) : (cfgHost ctx).glob = cfgGlob := rfl
 theorem ch_call (ctx : Ctx) : (cfgHost ctx).call = cfgCall ctx := rfl
-
-/-- a key as the caller gives it: a name or an id -/
-def encKey : CfgKey → V CO
-  | .byName n => .str n
-  | .byId k => .int k
-
-def encItem (kv : CfgKey × PyVal) : V CO := .tuple [encKey kv.1, V.ofPy kv.2]
 
 theorem cc_v2b_tok (ctx : Ctx) (v : V CO) (tok : Name) (ty : Ty) (ht : tyOfToken (.str tok) = some ty) (kw : List (Name × V CO)) (h : Unit) :
     cfgCall ctx 0x76616c326279746573 [v, .str tok] kw h = (encR .bytes (val2bytes ctx.atttype (toPyC v) ty), h) := by
